@@ -104,6 +104,9 @@ func C01(r *core.Run) {
 	multiList := 0
 
 	for round := 0; round < rounds; round++ {
+		if r.Violations() > 0 && round >= 2 {
+			break // refuted already; further rounds would only add witnesses (and client time-outs)
+		}
 		K := levels[round%len(levels)]
 		if r.Quick() && K == 128 {
 			K = 64
